@@ -744,12 +744,71 @@ func NamedOf(t types.Type) string {
 		t = p.Elem()
 	}
 	if n, ok := t.(*types.Named); ok {
-		if a, ok := TypeAlias[n.Obj()]; ok {
+		obj := n.Obj()
+		for i := 0; i < 4; i++ {
+			o, isPart := PartOf[obj]
+			if !isPart {
+				break
+			}
+			obj = o
+		}
+		if a, ok := TypeAlias[obj]; ok {
 			return a
 		}
-		return n.Obj().Name()
+		return obj.Name()
 	}
 	return ""
+}
+
+// PartOf maps a private struct type of the module that is embedded in exactly
+// one other struct type of its package (and in nothing else) to that owner: the
+// owner's fields and methods merely grouped under a type of their own. NamedOf
+// reports the owner for such a part, so that a method declared on the part is,
+// for the rules, a method of the owner. Filled by SetupParts.
+var PartOf = map[*types.TypeName]*types.TypeName{}
+
+// SetupParts fills PartOf for the loaded program.
+func SetupParts(p *Prog) {
+	for k := range PartOf {
+		delete(PartOf, k)
+	}
+	for _, pk := range p.Pkgs {
+		sc := pk.Types.Scope()
+		owners := map[*types.TypeName][]*types.TypeName{}
+		for _, name := range sc.Names() {
+			tn, ok := sc.Lookup(name).(*types.TypeName)
+			if !ok || tn.IsAlias() || !p.IsLibFile(tn.Pos()) {
+				continue
+			}
+			st, ok := tn.Type().Underlying().(*types.Struct)
+			if !ok {
+				continue
+			}
+			for i := 0; i < st.NumFields(); i++ {
+				f := st.Field(i)
+				if !f.Embedded() {
+					continue
+				}
+				ft := f.Type()
+				if pt, isP := ft.(*types.Pointer); isP {
+					ft = pt.Elem()
+				}
+				fn, isN := ft.(*types.Named)
+				if !isN || fn.Obj().Pkg() != pk.Types || fn.Obj().Exported() {
+					continue
+				}
+				if _, isSt := fn.Underlying().(*types.Struct); !isSt {
+					continue
+				}
+				owners[fn.Obj()] = append(owners[fn.Obj()], tn)
+			}
+		}
+		for part, os := range owners {
+			if len(os) == 1 && os[0] != part {
+				PartOf[part] = os[0]
+			}
+		}
+	}
 }
 
 // QualNamedOf returns "pkgpath.Name" of the (pointer-to) named type.
@@ -849,9 +908,7 @@ func InfoOf(c *ssa.CallCommon) CallInfo {
 		} else if v.Object() != nil && v.Object().Pkg() != nil {
 			ci.Pkg = v.Object().Pkg().Path()
 		}
-		if v.Signature.Recv() != nil {
-			ci.Recv = NamedOf(v.Signature.Recv().Type())
-		}
+		ci.Recv = RecvName(v)
 		if v.Parent() != nil { // function literal called directly
 			ci.Name = v.Name()
 		}
@@ -861,6 +918,35 @@ func InfoOf(c *ssa.CallCommon) CallInfo {
 		return CallInfo{Name: f.Name(), Static: f}
 	}
 	return CallInfo{Dyn: true}
+}
+
+// RecvName returns the name of the named type fn is a method of. A
+// package-level, unexported function of the module whose first parameter is a
+// pointer to a struct type declared in its own package counts as a method of
+// that type: a method written as a function ("recvLocked(s, m)" instead of
+// "s.recvLocked(m)") is the same code. "" if neither.
+func RecvName(fn *ssa.Function) string {
+	if fn == nil {
+		return ""
+	}
+	if r := fn.Signature.Recv(); r != nil {
+		return NamedOf(r.Type())
+	}
+	if fn.Parent() != nil || fn.Object() == nil || fn.Object().Exported() || len(fn.Params) == 0 || fn.Pkg == nil || !strings.HasPrefix(fn.Pkg.Pkg.Path(), ModulePath) {
+		return ""
+	}
+	pt, ok := fn.Params[0].Type().(*types.Pointer)
+	if !ok {
+		return ""
+	}
+	nt, ok := pt.Elem().(*types.Named)
+	if !ok || nt.Obj().Pkg() != fn.Pkg.Pkg {
+		return ""
+	}
+	if _, isSt := nt.Underlying().(*types.Struct); !isSt {
+		return ""
+	}
+	return nt.Obj().Name()
 }
 
 // CallOf returns the CallCommon of instr if it is a call, go or defer.
